@@ -47,6 +47,22 @@ def systematic():
     return out
 
 
+def colliding():
+    """definitions whose Go names collide and that differ only in their defaults: each keeps its own defaults"""
+    def pol(a, bk, tags):
+        return {"type": "object", "properties": {"attempts": {"type": "integer", "default": a}, "backoff": {"type": "string", "default": bk},
+                                                 "tags": {"type": "array", "items": {"type": "string"}, "default": tags}}}
+    out = []
+    for n1, n2 in (("retry_policy", "retry-policy"), ("Retry", "retry"), ("retryPolicy", "RetryPolicy")):
+        root = {"type": "object", "$defs": {n1: pol(3, "linear", ["a"]), n2: pol(10, "exponential", ["b", "c"])},
+                "properties": {"inbound": {"$ref": "#/$defs/" + n1}, "outbound": {"$ref": "#/$defs/" + n2}}}
+        docs = [({"inbound": {}, "outbound": {}}, {"inbound": {"attempts": 3, "backoff": "linear", "tags": ["a"]}, "outbound": {"attempts": 10, "backoff": "exponential", "tags": ["b", "c"]}}),
+                ({"outbound": {"attempts": None}}, {"outbound": {"attempts": 10, "backoff": "exponential", "tags": ["b", "c"]}}),
+                ({"inbound": {"backoff": "x"}, "outbound": {"backoff": "y"}}, {"inbound": {"attempts": 3, "backoff": "x", "tags": ["a"]}, "outbound": {"attempts": 10, "backoff": "y", "tags": ["b", "c"]}})]
+        out.append((root, docs))
+    return out
+
+
 def docs_for(pos, dv, p):
     other = OTHER.get(dv if not isinstance(dv, list) else None)
     if isinstance(dv, list):
@@ -84,10 +100,13 @@ def run(ctx):
     for i, (root, pos, dv, p) in enumerate(systematic()):
         docs = [{"doc": d, "cls": "default-" + tag, "path": path, "dv": dv} for tag, d, path in docs_for(pos, dv, p)]
         cases.append(Case("c09s%d" % i, root, docs, fam="systematic"))
+    coll = []
+    for i, (root, docs) in enumerate(colliding()):
+        coll.append(Case("c09c%d" % i, root, [{"doc": d, "cls": "colliding-defaults", "path": (), "want": w} for d, w in docs], fam="colliding-names"))
     n = 20 if ctx.tier == "quick" else 300
     rnd = build_cases(ctx, n, ["string", "integer", "number", "boolean"], {"optional-absent", "valid", "required-default"}, "c09x", docs_per=3,
                       gen_kwargs={"allow_formats": False})
-    run_cases(ctx, cases + rnd, "c09")
+    run_cases(ctx, cases + rnd + coll, "c09")
     for c in rnd + cases:
         for d in c.docs:
             if d["cls"] in ("required-default", "default-null", "default-absent") and d.get("valid") is not None:
@@ -114,6 +133,21 @@ def run(ctx):
                               % (json.dumps(d["dv"]), json.dumps(d["doc"]), d["cls"], json.dumps(got) if ok else "missing", json.dumps(want)))
                 nv += 1
                 break
+    for c in coll:
+        if not c.build_ok:
+            ctx.violation("oracle", dict(c.replay_obj(), build_err=c.build_err, gen_err=c.gen_err), "colliding definition names: generation failed or does not build")
+            nv += 1
+            continue
+        ctx.cov["programs"] += 1
+        for di, d in enumerate(c.docs):
+            o = d.get("obs") or {}
+            ctx.count({"s": c.schema, "d": d["doc"]}, True, "defaults/colliding-names")
+            got = json.loads(o["out"]) if o.get("v") == "ACC" else None
+            if got is None or not json_eq(got, d["want"]):
+                if nv < 6:
+                    ctx.violation("oracle", c.replay_obj(di), "definitions with colliding Go names: document %s decodes to %s, expected %s (each definition keeps its own defaults)"
+                                  % (json.dumps(d["doc"]), o.get("out") or o.get("err"), json.dumps(d["want"])))
+                nv += 1
     # random schemas: every absent defaulted property shows its default after decoding
     for c in rnd:
         if nv >= 6 or not c.build_ok:
